@@ -4,6 +4,7 @@ import (
 	"fmt"
 	"go/token"
 	"go/types"
+	"sort"
 	"strings"
 
 	"adgverif/an"
@@ -243,6 +244,7 @@ func (s *c01Summ) noWriteOnEdge(e an.CondEdge, call *ssa.Call) bool {
 }
 
 func runC01(c *an.Ctx) {
+	c01Unvalidated(c)
 	c.Floor("C01-R10", 1)
 	mainPipeline(c, "C01-R10")
 	c.Floor("C01-R1", 1)
@@ -792,3 +794,84 @@ func c01EscapingClosureUsing(fn *ssa.Function, v ssa.Value) *ssa.MakeClosure {
 	})
 	return res
 }
+
+// c01Unvalidated is the rule for the code that sees messages before (or
+// regardless of) the accept check: everything the server base reaches without
+// going through the handler (metrics listeners, writers, normalisation, error
+// responses) may be given a message with no or several questions, so an access
+// to Question[k] there must be guarded by a check of the section's length.  A
+// panic at such a place is recovered, but the response is lost on the transports
+// that write after the call returns.
+func c01Unvalidated(c *an.Ctx) {
+	c.Floor("C01-R11", 2)
+	var roots []*ssa.Function
+	for _, k := range []string{"dnsserver.(*ServerBase).serveDNSMsgInternal", "dnsserver.(*ServerBase).serveDNSMsg", "dnsserver.(*ServerBase).serveDNS"} {
+		if fn := c.Fn(k); fn != nil {
+			roots = append(roots, fn)
+		} else {
+			c.Und("C01-R11", k, token.NoPos, "anchor not found")
+		}
+	}
+	reach := c.ReachableFrom(roots, func(call ssa.CallInstruction) bool {
+		cc := call.Common()
+		return cc.IsInvoke() && cc.Method.Name() == "ServeDNS"
+	})
+	var fns []*ssa.Function
+	for fn := range reach {
+		fns = append(fns, fn)
+	}
+	sort.Slice(fns, func(i, j int) bool { return an.FnKey(fns[i]) < an.FnKey(fns[j]) })
+	isQuestion := func(v ssa.Value) (string, bool) {
+		ap, ok := an.AccessPath(v)
+		return ap, ok && strings.HasSuffix(ap, ".Question")
+	}
+	for _, fn := range fns {
+		if c.IsTestFile(fn.Pos()) {
+			continue
+		}
+		if pk := an.FnPkg(fn); pk != nil && strings.HasSuffix(pk.Path(), "test") {
+			continue
+		}
+		k := an.FnKey(fn)
+		an.Instrs(fn, func(in ssa.Instruction) {
+			ia, ok := in.(*ssa.IndexAddr)
+			if !ok {
+				return
+			}
+			if _, isConst := an.ConstInt(ia.Index); !isConst {
+				return
+			}
+			ap, isQ := isQuestion(ia.X)
+			if !isQ {
+				return
+			}
+			c.Analysed(k)
+			guarded := false
+			for _, e := range an.DominatingConds(ia.Block()) {
+				b, isBin := e.If.Cond.(*ssa.BinOp)
+				if !isBin {
+					continue
+				}
+				for _, side := range []ssa.Value{b.X, b.Y} {
+					if call, isCall := side.(*ssa.Call); isCall && an.CalleeName(call) == "builtin.len" && len(call.Call.Args) == 1 {
+						if ap2, ok2 := isQuestion(call.Call.Args[0]); ok2 && ap2 == ap {
+							guarded = true
+						}
+					}
+				}
+			}
+			key := fmt.Sprintf("%s reads %s[k]", k, ap)
+			if guarded {
+				c.Ok("C01-R11", key, ia.Pos(), "guarded by a check of the section's length")
+			} else if why := c01ValidatedOnly[k]; why != "" {
+				c.Ok("C01-R11", key, ia.Pos(), "exception: %s", why)
+			} else {
+				c.Bad("C01-R11", key, ia.Pos(), "a question is read without a length check in code that also runs for messages rejected by the accept check (no or several questions): the resulting panic loses the FORMERR on the transports that write after the handler returns")
+			}
+		})
+	}
+}
+
+// c01ValidatedOnly lists the functions reached from the server base that are
+// only given messages with exactly one question, with the reason.
+var c01ValidatedOnly = map[string]string{}
